@@ -484,6 +484,7 @@ func (r *TableHTMLRenderer) renderTableCell(
 	}
 	if entering {
 		_, _ = fmt.Fprintf(w, "<%s", tag)
+		var attrs gast.Node = n
 		if n.Alignment != ast.AlignNone {
 			amethod := r.TableConfig.TableCellAlignMethod
 			if amethod == TableCellAlignDefault {
@@ -507,14 +508,20 @@ func (r *TableHTMLRenderer) renderTableCell(
 				}
 				style := fmt.Sprintf("text-align:%s", n.Alignment.String())
 				cob.AppendString(style)
-				n.SetAttributeString("style", cob.Bytes())
+				// render from a scratch copy of the attributes: rendering must not alter the tree
+				c := ast.NewTableCell()
+				for _, attr := range n.Attributes() {
+					c.SetAttribute(attr.Name, attr.Value)
+				}
+				c.SetAttributeString("style", cob.Bytes())
+				attrs = c
 			}
 		}
-		if n.Attributes() != nil {
+		if attrs.Attributes() != nil {
 			if tag == "td" {
-				html.RenderAttributes(w, n, TableTdCellAttributeFilter) // <td>
+				html.RenderAttributes(w, attrs, TableTdCellAttributeFilter) // <td>
 			} else {
-				html.RenderAttributes(w, n, TableThCellAttributeFilter) // <th>
+				html.RenderAttributes(w, attrs, TableThCellAttributeFilter) // <th>
 			}
 		}
 		_ = w.WriteByte('>')
